@@ -62,6 +62,12 @@ def run(data):
                     except Exception: pass  # noqa
     for ua, m, ub in data.get("decls", []):
         mk_unit(ua).equals(Quantity(mk_num(m), mk_unit(ub)))
+    # conversions attempted BEFORE the late declarations (outcomes discarded), then the late declarations, then the cases
+    for c in data.get("pre_cases", []):
+        try: Quantity(mk_num(c["a"]["m"]), mk_unit(c["a"]["u"])).in_unit(mk_unit(c["b"]))
+        except Exception: pass  # noqa
+    for ua, m, ub in data.get("late_decls", []):
+        mk_unit(ua).equals(Quantity(mk_num(m), mk_unit(ub)))
     if data.get("bookkeeping"):
         # ordinary bookkeeping on public results before anything is converted: a running balance started from unit.quantify() (and from an
         # unprefixed quantity) of every unit the cases mention, brought down to nothing with -= and built up again with +=
